@@ -24,3 +24,7 @@ Definition run_budget (c : N) (rle : list (N * N)) : list N :=
   | Panic q => [9; q]
   | _ => [8]
   end ++ [weight_of_cost c; cost_of_weight (weight_of_cost c)].
+
+(* conversions of an arbitrary 64-bit weight: cost of it, weight of that cost *)
+Definition run_conv (w : N) : list N :=
+  [cost_of_weight64 w; weight_of_cost (cost_of_weight64 w)].
